@@ -17,13 +17,14 @@ def run(prog, chk):
     chk.defer(chain_list_table, prog, chk)
     chk.defer(remembered_root_rule, prog, chk)
     chk.defer(sibling_table, prog, chk)
+    chk.defer(high_bit_table, prog, chk)
     chk.explanation = (
         "hashchain.c: (R3a) no error status stored into the status variable is overwritten before it can be observed; (R6) aggregateChain is evaluated abstractly for one link with every combination "
         "of link direction x calendar/aggregation x in-range / out-of-range level correction and start level: hashing order "
         "left||right||level byte, level byte = start + correction + 1 taken after the update, out-of-range values end in an "
         "error without storing an output, calendar chains switch algorithm on left links only; (R2) shape rejections of the "
         "calendar time derivation exist and exit with an error.")
-    chk.not_decided = ["numerical equality of the root with the KSI formula for all chains", "highBit arithmetic", "digest values"]
+    chk.not_decided = ["numerical equality of the root with the KSI formula for all chains", "digest values"]
     chk.rule("C03.dropped", "no non-OK status constant is overwritten before being read (dropped error)", floor=30)
     chk.rule("C03.fold", "aggregateChain: one-link decision table (order, level byte, range rejection, algorithm switch)", floor=16)
     chk.rule("C03.caltime", "calendar time derivation rejects impossible shapes", floor=4)
@@ -516,3 +517,32 @@ def sibling_table(prog, chk):
             want = "the octets the element serializer wrote in this call (17, without header)" + (" or the unedited parse octets" if snap and not tree else "")
         chk.ob("C03.sibling", inst, ok, "expected the hasher to be given %s; source: status %s, serializer calls %d, hasher given %s"
                % (want, q.ret, len(ser), added), loc=fn.loc(), fn=fn, nontrivial=kinds == 1)
+
+
+def high_bit_table(prog, chk):
+    """The registration time of a calendar chain is derived by peeling the highest power of two off the remaining publication time, link
+    by link (highBit).  The helper is evaluated for every bit position 0..62 on three patterns - the power of two itself (only the top
+    bit set: every smear step of a bit-twiddling implementation shows), the power of two plus one, all bits below set - and on
+    every pair of two set bits: the result is the highest power of two not above the argument."""
+    from ksirules.interp import Interp, unit_helpers, inline_model
+    chk.rule("C03.highbit", "highBit(n) is the highest power of two <= n for every bit length up to 63 (value table: 2^k, 2^k+1, 2^(k+1)-1, 2^k+2^j)", floor=180)
+    fn = prog.fn("highBit", "hashchain.c")
+    np_ = fn.params[0]["n"]
+    deep = getattr(chk, "tier", "quick") == "thorough"
+    vals = set()
+    for k in range(0, 63):
+        vals |= {1 << k, (1 << k) + 1 if k else 1, (1 << (k + 1)) - 1 if k < 62 else (1 << 62) + 12345}
+        for j in (range(k) if deep else (0, k // 2, k - 1)):
+            if 0 <= j < k:
+                vals.add((1 << k) | (1 << j))
+    hs = unit_helpers(prog, fn)
+    n = 0
+    for v in sorted(vals):
+        I = Interp(fn, inputs={np_: v}, call_model=inline_model(prog, hs) if hs else None, on_unknown="stop", prog=prog, loop_bound=70)
+        paths = I.run()
+        chk.paths += len(paths)
+        if len(paths) != 1 or paths[0].undetermined or not isinstance(paths[0].ret, int):
+            raise AnalysisBroken("highBit: evaluation not determined for %#x" % v)
+        want = 1 << (v.bit_length() - 1)
+        n += 1
+        chk.ob("C03.highbit", "highBit[%#x]" % v, paths[0].ret == want, "expected %#x; source: %#x" % (want, paths[0].ret), loc=fn.loc(), fn=fn, nontrivial=v >= (1 << 32))
